@@ -232,8 +232,15 @@ var c44deploy = func() []byte {
 // one in-memory LevelDB per process, wiped between scenarios (opening a
 // goleveldb instance costs milliseconds)
 var c44shared *leveldbstore.LevelDBStore
+var c44sharedUses int
 
 func c44freshStore() *leveldbstore.LevelDBStore {
+	c44sharedUses++
+	if c44shared != nil && c44sharedUses%128 == 0 {
+		// old versions pile up in the memtable and slow iteration down
+		c44shared.Close()
+		c44shared = nil
+	}
 	if c44shared == nil {
 		c44shared = leveldbstore.NewMemLevelDBStore()
 		return c44shared
@@ -256,6 +263,7 @@ func c44freshStore() *leveldbstore.LevelDBStore {
 }
 
 type c44case struct {
+	Unit   string   `json:"unit"`   // "cachedb"
 	Layout []string `json:"layout"` // placement per key
 	Action string   `json:"action"` // migrate-low, migrate-high, destroy
 }
@@ -440,7 +448,7 @@ func c44marker(r *vh.Run) {
 			is, err2 := cache.IsContractDestroyed(a)
 			r.Trace(1)
 			r.Trans(3)
-			cs := map[string]interface{}{"marker": true, "contract": ce, "destroyed": dm}
+			cs := map[string]interface{}{"unit": "cachedb", "marker": true, "contract": ce, "destroyed": dm}
 			if err != nil || err2 != nil {
 				r.Violationf("marker:error", cs, "GetContract err=%v IsContractDestroyed err=%v", err, err2)
 			}
@@ -469,7 +477,10 @@ func TestVerif_C44_cachedb(t *testing.T) {
 	r.Bound(fmt.Sprintf("%d placements per key (%s), 4 keys => %d layouts x 3 actions; marker product 4x4", len(places), map[bool]string{false: "sharp subset: absent, each single layer, stacked puts, tombstones over lower values", true: "all 18"}[r.Thorough()], len(places)*len(places)*len(places)*len(places)))
 
 	var rc c44case
-	if r.ReplayCase(&rc) && len(rc.Layout) == 4 {
+	if r.ReplayCase(&rc) && rc.Unit != "" && rc.Unit != "cachedb" {
+		return // a replay case of the other unit
+	}
+	if len(rc.Layout) == 4 {
 		var ps []c44place
 		for _, s := range rc.Layout {
 			for _, p := range c44allPlaces() {
@@ -514,7 +525,7 @@ func TestVerif_C44_cachedb(t *testing.T) {
 			r.Trace(1)
 			r.Trans(ops)
 			for _, v := range viol {
-				r.Violation(v[0], fmt.Sprintf("layout %v, %s: %s", names, a, v[1]), c44case{names, a})
+				r.Violation(v[0], fmt.Sprintf("layout %v, %s: %s", names, a, v[1]), c44case{"cachedb", names, a})
 			}
 			r.Class(fmt.Sprintf("%s:visible=%d:tombstones=%v", strings.SplitN(a, "-", 2)[0], vis, tomb))
 		}
